@@ -215,7 +215,7 @@ type combo struct {
 
 func combos() []combo {
 	cs := []combo{}
-	for k := 1; k <= 3; k++ {
+	for k := 1; k <= 6; k++ {
 		k := k
 		cs = append(cs,
 			combo{name: fmt.Sprintf("And/%d", k), k: k, build: func(s []strategy.Strategy) strategy.Strategy { return strategy.NewAndStrategy("and", s...) }, model: modelAnd},
@@ -400,7 +400,7 @@ func macdRsiUnit(c *core.Ctx, p [4]int, L int) {
 func init() {
 	core.Register(&core.Check{
 		ID:   "C07",
-		Rule: "combinators over scripted stub strategies: every tuple of action words over {Sell,Hold,Buy} (k=1: length<=7, k=2: <=5, k=3: <=3 quick / 4 thorough) and, for the price-dependent decorators, every closing word over {1,2,4,3} of the same length (<=5), stop-loss percentages {0,0.25,0.5}, decorator nesting depth 2; each case is one execution of the real combinator under the controlled scheduler; oracle: documented position-wise combination / reference state machine, plus the No-Loss and Stop-Loss safety invariants evaluated on the whole history; MACD-RSI against its real sub-strategies run separately; states = cases, non-trivial = distinct emitted action words per unit",
+		Rule: "combinators over scripted stub strategies: every tuple of action words over {Sell,Hold,Buy} (k=1: length<=7, k=2: <=5, k=3: <=3 quick / 4 thorough, k=4: <=2 / 3, k=5,6: 1 / 2) and, for the price-dependent decorators, every closing word over {1,2,4,3} of the same length (<=5), stop-loss percentages {0,0.25,0.5}, decorator nesting depth 2; each case is one execution of the real combinator under the controlled scheduler; oracle: documented position-wise combination / reference state machine, plus the No-Loss and Stop-Loss safety invariants evaluated on the whole history; MACD-RSI against its real sub-strategies run separately; states = cases, non-trivial = distinct emitted action words per unit",
 		Assume: []string{"stub strategies emit exactly one scripted action per snapshot (equal lengths); closings positive", "percentage is a fraction as the code documents (closing*(1-Percentage))"},
 		Units: func(tier string) []core.Unit {
 			var us []core.Unit
@@ -428,6 +428,16 @@ func init() {
 					maxL = 3
 					if th {
 						maxL = 4
+					}
+				case cb.k == 4:
+					maxL = 2
+					if th {
+						maxL = 3
+					}
+				case cb.k >= 5:
+					maxL = 1
+					if th {
+						maxL = 2
 					}
 				}
 				for L := 0; L <= maxL; L++ {
